@@ -133,6 +133,12 @@ func checkC09(c *Ctx) {
 	ruleTerminationChain(c, pl, "C09-R5")
 	ruleConfinement(c, pl, "C09-R6")
 	ruleKahn(c, pl, "C09-R7")
+	// R8: the reader stage forwards every byte it reads exactly once (all input chunkings)
+	if read, nVal, errVal := handleRead(pl.handle); read != nil && nVal != nil && errVal != nil {
+		ruleForwardOnce(c, pl, "C09-R8", read, nVal, errVal)
+	} else {
+		c.Fail("C09-R8", "Handle:read", pl.handle.Pos(), "unresolved", "the read call of Handle was not found")
+	}
 	c.MinInstances("C09-R1", 3)
 	c.MinInstances("C09-R2", 3)
 	c.MinInstances("C09-R3", 4)
@@ -140,6 +146,7 @@ func checkC09(c *Ctx) {
 	c.MinInstances("C09-R5", 4)
 	c.MinInstances("C09-R6", 3)
 	c.MinInstances("C09-R7", 1)
+	c.MinInstances("C09-R8", 6)
 }
 
 // ---- R1 close discipline ------------------------------------------------------
